@@ -386,8 +386,16 @@ fn floor_unit(t: SystemTime, p: Proto) -> u64 {
 fn api_midpoint(out: &mut Out, secs: u64, nanos: u32, key: &mut OnlineKey) {
     let t = UNIX_EPOCH + Duration::new(secs, nanos);
     for (ver, p) in [(Version::Google, Proto::Classic), (Version::RfcDraft13, Proto::Ietf)] {
-        let desc = json!({"kind":"midpoint","secs":secs,"nanos":nanos,"proto":p.name()});
-        let r = catch_unwind(AssertUnwindSafe(|| key.make_srep(ver, t, &vec![7u8; p.width()])));
+        // the unit follows the version, not the shape of the root handed in: the root's width is
+        // varied (own width / 32 / 64 bytes), derived from the clock value so that a replay repeats it
+        let root_len = match (secs ^ nanos as u64) % 3 {
+            0 => p.width(),
+            1 => 32,
+            _ => 64,
+        };
+        out.obs(&format!("make_srep_root_len_{}_proto_{}", root_len, p.name()), 1);
+        let desc = json!({"kind":"midpoint","secs":secs,"nanos":nanos,"proto":p.name(),"root_len":root_len});
+        let r = catch_unwind(AssertUnwindSafe(|| key.make_srep(ver, t, &vec![7u8; root_len])));
         out.obs("clock_values_checked", 1);
         let msg = match r {
             Ok(m) => m,
